@@ -596,7 +596,24 @@ def _removal_complete(chk, repo):
     chk.analysed(f)
     cfg = f.cfg()
     rms = [(x, c) for x, c in cfg.calls_named("remove") if c.args and isinstance(c.args[0], ast.Name)]
-    chk.need(len(rms) == 2, "REMOVE-1", "replace_handler removes old registrations (with / without kwargs)", f)
+    chk.need(len(rms) in (1, 2), "REMOVE-1", "replace_handler removes old registrations", f)
+    if len(rms) == 1:
+        # one scan for both cases: selected by `same handler and (no kwargs given or same kwargs)`
+        x, c = rms[0]
+        lps = [h for h in cfg.nodes if h.kind == "loop" and any(y is c for y in ast.walk(h.ast))]
+        chk.need(lps, "REMOVE-1", "replace_handler scans the handler list", f)
+        v = src(c.args[0])
+        got = inloop_guards(cfg, x.id, lps[-1].id, compound=True)
+        atoms = {g for g in got if " or " not in g[0]}
+        comp = [g for g in got if " or " in g[0]]
+        ok = atoms == {canon_fact("%s[0] == handler" % v, True)} and len(comp) == 1 and comp[0][1] is True
+        if ok:
+            parts = {canon_fact(p_.strip(), True) for p_ in comp[0][0].split(" or ")}
+            ok = parts == {canon_fact("not kwargs", True), canon_fact("%s[2] == kwargs" % v, True)}
+        early = [y for y in ast.walk(lps[-1].ast) if isinstance(y, (ast.Break, ast.Return))]
+        chk.ob("REMOVE-1", "replace_handler removes every old registration of that handler - with these kwargs when kwargs are given, whatever its kwargs otherwise",
+               ok and not early, f.where(c), detail="selected by %s" % sorted(got), construct=f.ident, text="replace_handler removal merged")
+        rms = []
     for x, c in rms:
         lps = [h for h in cfg.nodes if h.kind == "loop" and any(y is c for y in ast.walk(h.ast))]
         chk.need(lps, "REMOVE-1", "replace_handler scans the handler list", f)
@@ -1023,6 +1040,8 @@ def battery():
         M("event entry dropped while handlers remain", EV, "        if not self.registered_handlers[event]:  # if value is empty list", "        if self.registered_handlers[event]:  # if value is empty list", "REMOVE-1"),
         M("waiter group: only the fired waiter is removed", EV, "        for key in _keys:\n            self.remove_handler_by_key(key)\n", "        for key in _keys[:1]:\n            self.remove_handler_by_key(key)\n", ["REMOVE-1", "RANGE-0"]),
         M("waiting future resolved without the event's kwargs", EV, "        _future.set_result(kwargs)", "        _future.set_result(True)", "REMOVE-1"),
+        M("replace_handler without kwargs keeps registrations that carry kwargs", EV, "            if kwargs:\n                # slice the full list [:] to make a copy so we can delete from the\n                # original while iterating\n                for rh in self.registered_handlers[event][:]:\n                    if rh[0] == handler and rh[2] == kwargs:\n                        self.registered_handlers[event].remove(rh)\n            else:\n                for rh in self.registered_handlers[event][:]:\n                    if rh[0] == handler:\n                        self.registered_handlers[event].remove(rh)\n", "            for rh in self.registered_handlers[event][:]:\n                if rh[0] == handler and rh[2] == kwargs:\n                    self.registered_handlers[event].remove(rh)\n", "REMOVE-1"),
+        M("twin: replace_handler scans merged correctly", EV, "            if kwargs:\n                # slice the full list [:] to make a copy so we can delete from the\n                # original while iterating\n                for rh in self.registered_handlers[event][:]:\n                    if rh[0] == handler and rh[2] == kwargs:\n                        self.registered_handlers[event].remove(rh)\n            else:\n                for rh in self.registered_handlers[event][:]:\n                    if rh[0] == handler:\n                        self.registered_handlers[event].remove(rh)\n", "            for rh in self.registered_handlers[event][:]:\n                if rh[0] == handler and (not kwargs or rh[2] == kwargs):\n                    self.registered_handlers[event].remove(rh)\n", None),
     ]
 
 
